@@ -214,6 +214,9 @@ func oracle(c rescorr.Case, ms *yang.Modules, errs []error, out *rescorr.GoOut) 
 	}
 }
 
+// chainDepth: longest chain of gen.LeftoverChains in the corpus (4 in the thorough tier).
+var chainDepth = 3
+
 func main() {
 	f := lib.ParseFlags()
 	if lib.IsChild() {
@@ -235,6 +238,9 @@ func main() {
 		return
 	}
 	res := lib.NewResult("C04", f)
+	if f.Thorough() {
+		chainDepth = 4
+	}
 	n := 3000
 	if f.Thorough() {
 		n = 150000
@@ -565,7 +571,7 @@ func corpusCases() []rescorr.Case {
 	// augment-free submodule split off the target module): the stage after FixChoice retries to a
 	// fixpoint with FixChoice after every productive round, and the grafted nodes must satisfy the tree
 	// invariant like any others
-	for _, c := range gen.LeftoverChains(3) {
+	for _, c := range gen.LeftoverChains(chainDepth) {
 		cc := mk()
 		cc.Names, cc.Texts = c.Names, c.Texts
 		seq = append(seq, cc)
